@@ -573,6 +573,7 @@ func runC17(c *fw.Check) {
 	c17refs(c)
 	c17generated(c)
 	c17names(c)
+	c17replace(c)
 }
 
 func replayC17(c *fw.Check, path string) {
